@@ -504,9 +504,9 @@ pub fn decl_program(ty: usize, place: usize, with_init: bool) -> (String, String
     (format!("{tname}/{pname}/init={}", with_init as u8), src)
 }
 
-/// Known finding C11-string-default-param: the encoder returns an error for an input parameter whose
-/// default value is a string / character literal.  These combinations are left out of the regular
-/// stream and replayed as one known-witness case.
+/// Finding C11-string-default-param (fixed in c48da62): the encoder used to return an error for an input
+/// parameter whose default value is a string / character literal.  These combinations are always part
+/// of the declaration block, and the original witness is replayed as the `known-witness` case.
 pub fn decl_hits_string_default(ty: usize, place: usize, with_init: bool) -> bool {
     let (tname, init) = DECL_TYPES[ty % DECL_TYPES.len()];
     let pname = DECL_PLACES[place % DECL_PLACES.len()];
